@@ -157,7 +157,14 @@ class Gen(object):
             if j < 0.96 and self.wide:
                 if r.random() < 0.3:
                     return [ind + '%s: int = %s' % (self.name(), self.expr(D))]
-                return [ind + 'del %s' % self.target(D - 1)]
+                # never delete a bare name: a later read would be an unbound-name error, which is
+                # outside the guarantee (names are atoms)
+                t = self.target(D - 1)
+                while t.isidentifier() or t.startswith('('):
+                    t = self.target(D - 1)
+                if r.random() < 0.25:
+                    t = '(%s, %s.%s)' % (t, self.name(), r.choice(ATTRS))
+                return [ind + 'del %s' % t]
             return [ind + 'pass']
         if k < 0.76:
             out = [ind + 'if %s:' % self.expr(D)] + self.block(depth - 1, r.randint(1, 2), ind + '  ', in_loop)
@@ -171,7 +178,8 @@ class Gen(object):
                 out += [ind + 'else:'] + self.block(depth - 1, 1, ind + '  ', in_loop)
             return out
         if k < 0.90:
-            t = self.name() if r.random() < 0.8 else self.expr(1)
+            # the test must be an event (a truth test of a V): event-free tests could loop forever
+            t = self.name() if r.random() < 0.8 else r.choice(['%s.%s' % (self.name(), r.choice(ATTRS)), '%s(%s)' % (self.name(), self.name()), '(not %s)' % self.name()])
             return [ind + 'while %s:' % t] + self.block(depth - 1, r.randint(1, 2), ind + '  ', True)
         if k < 0.96 or not self.wide:
             items = []
